@@ -16,6 +16,7 @@ Spec file format (sections start with a line `@@<keyword> ...`):
   @@contract                       requires/ensures text placed between signature and body
   @@body_start                     ghost text placed right after the body's `{`
   @@body_end                       ghost text placed right before the body's `}`
+  @@loop <k> header <text>         anchor: loop k's header (keyword up to `{`) must equal <text>
   @@loop <k> invariant             invariant/decreases text placed between loop header and `{`
   @@loop <k> before|body_start|body_end|after   ghost text at that position of loop k (1-based,
                                    source order)
@@ -64,6 +65,7 @@ class Section:
         self.body_start = ""
         self.body_end = ""
         self.loop_ann = {}  # (k, where) -> text
+        self.loop_headers = {}  # k -> expected header text
 
 
 class UnitSpec:
@@ -123,6 +125,9 @@ class UnitSpec:
                     cur_fn.loops = int(parts[1])
                 elif kw in ("attrs", "contract", "body_start", "body_end"):
                     cur_key = kw
+                elif kw == "loop" and len(parts) > 2 and parts[2] == "header":
+                    # anchor: the loop header must read exactly like this (whitespace-insensitive)
+                    cur_fn.loop_headers[int(parts[1])] = " ".join(parts[3:])
                 elif kw == "loop":
                     cur_key = (int(parts[1]), parts[2])
                     if parts[2] not in ("invariant", "before", "body_start", "body_end", "after"):
@@ -219,6 +224,15 @@ def build_function(src, sec):
     if sec.loops is not None and len(loops) != sec.loops:
         raise ExtractError("fn %s: expected %d loops, found %d (loop structure changed; anchors lost)"
                            % (sec.name, sec.loops, len(loops)))
+    for k, expected in sec.loop_headers.items():
+        if k < 1 or k > len(loops):
+            raise ExtractError("fn %s: header anchor for loop %d but only %d loops" % (sec.name, k, len(loops)))
+        got = " ".join(src[loops[k - 1].kw_start:loops[k - 1].body_open].split())
+        # only the loop kind and pattern are anchored (`for r in`), NOT the range: a changed bound must
+        # still reach the verifier and fail there
+        if not got.startswith(" ".join(expected.split()) + " "):
+            raise ExtractError("fn %s: loop %d header is `%s`, contract was written for `%s` (loop structure changed; anchors lost)"
+                               % (sec.name, k, got, expected))
     if sec.body_start:
         edits.append((body_open + 1, body_open + 1, "\n" + sec.body_start))
     if sec.body_end:
